@@ -86,6 +86,9 @@ def reply_variants(rnd, tier):
     for acc in ('missing', 'lower', 'upper', 'swap', 'trunc', 'nopad', 'extrapad', 'empty', 'other_key', 'key_itself',
                 'prefix_ok', ['lit', 's3pPLMBiTxaQ9kYGzzhZRbK+xOo='], ['lit', '*'], ['lit', 'AA=']):
         out.append(('wrong-accept:%s' % (acc if isinstance(acc, str) else acc[1][:4]), dict(accept=acc), 'rejected'))
+    # the digest wrapped in characters that are not HTTP whitespace (OWS is SP / HTAB only) but that str.strip() removes
+    for wi, (a, b) in enumerate((('', '\x1f'), ('', '\x0b\x0c'), ('\x1c\x1d\x1e', ''), ('\x1f', '\x1f'))):
+        out.append(('wrong-accept:non-http-whitespace-%d' % wi, dict(accept=['wrap', a, b]), 'rejected'))
     # wrong upgrade
     for up in (None, 'h2c', 'websocket2', 'web socket', '', 'websocket, foo', '{websocket}', 'websocket{}', '{0}', 'web{socket',
                '}{', '{upgrade_header!r}'):
@@ -328,6 +331,8 @@ def run_reply(case, acc):
         fam = case['fam']
         if fam.startswith('wrong-accept:') and fam.split(':')[1] in ('lower', 'upper', 'swap'):
             key += ':accept-case-variant'
+        elif fam.startswith('wrong-accept:non-http-whitespace'):
+            key += ':accept-wrapped-in-non-http-whitespace'
         elif fam.startswith('wrong-accept:'):
             key += ':' + fam
         elif fam.startswith('status-not-101:'):
